@@ -22,6 +22,10 @@ Proof. exact generichash_chunks_concat. Qed.
 (* interfaces whose hasher is the external sha2 crate (crypto_hash_sha512,
    crypto_auth, pre-hashed signing): chunking-independence follows from the
    crate's update law, which the correspondence check validates on every split *)
+(* crypto_auth_init / update / final over any chunking = the one-shot authenticator of the concatenation *)
+Theorem C08_auth_chunks : forall key (cs : list bytes), auth_chunks key cs = auth key (concat cs).
+Proof. exact auth_chunks_is_auth. Qed.
+
 Theorem C08_external_hasher : forall (H : Type) (upd : H -> bytes -> H),
   (forall s a b, upd (upd s a) b = upd s (a ++ b)) -> (forall s, upd s [] = s) ->
   forall cs s, fold_left upd cs s = upd s (concat cs).
